@@ -4,12 +4,32 @@ proof:          lean/MPilot/Props/C05.lean
 correspondence: every data command on shapes of rank 1-3 including length-1 axes
 oracles:        result.shape == input shape; a common permutation / reshape of the input cells permutes / reshapes the result
 """
+import numpy
+
 from .. import common, eems
 from . import numeric
 
 
-def gen(ctx, cmds, n):
+def grids(ctx, cmds):
+    """every pair (and triple, on a coarser lattice) of lattice values incl. missing laid out on 2-D and 3-D grids: ties, cells where
+    every input is fully false / fully true, and missing cells all occur next to ordinary cells of the same row and column"""
+    from .c06 import lattice_arrays
+    from fractions import Fraction
     cases = []
+    for cmd in cmds:
+        lib, how, _ = eems.COMMANDS[cmd]
+        for n, step, shapes in ((1, Fraction(1, 4), [(2, 5), (5, 2)]), (2, Fraction(1, 2), [(6, 6), (4, 9), (2, 3, 6)]), (3, Fraction(1), [(8, 8), (4, 4, 4)])):
+            if (how == "one") != (n == 1) or (how == "ab" and n != 2) or (cmd == "FuzzyXOr" and n < 2):
+                continue
+            arrs = lattice_arrays(n, step)
+            shape = ctx.rng.choice(shapes)
+            inputs = [numpy.ma.array(numpy.ma.getdata(a).reshape(shape).copy(), mask=numpy.ma.getmaskarray(a).reshape(shape).copy()) for a in arrs]
+            cases.append(eems.Case(cmd, eems.gen_params(ctx.rng, cmd, inputs, "valid"), inputs))
+    return cases
+
+
+def gen(ctx, cmds, n):
+    cases = grids(ctx, cmds)
     for cmd in cmds:
         for i in range(n):
             cases.append(eems.gen_case(ctx.rng, cmd, style="valid", shape=eems.rand_shape(ctx.rng)))
